@@ -463,7 +463,20 @@ def glob_traces(name):
     return glob.glob(os.path.join(z.BUILD, "traces", name, "trace_*.ndjson"))
 
 
-CHECKS = {"C17": check_C17, "C13": check_C13, "C12": check_C12, "C09": check_C09, "C10": check_C10, "C08": check_C08, "C11": check_C11, "C06": check_C06, "C15": check_C15, "C02": check_C02}
+# ------------------------------------------------------------------------- C14
+
+def check_C14(tier, replay=None):
+    R = Result("C14", tier)
+    runs = [("MC_C14_payload", {"Slice": '"payload"'}), ("MC_C14_keyword", {"Slice": '"keyword"'})]
+    std_flow(R, "MC_C14", runs, "Trace_C14", {}, ("D25",), ["DesignSafe", "Emit"])
+    R.extra["exhaustive"] = True
+    R.extra["not_modelled"] = "compilation and run-time comparison of the literals is part of the compile pipeline (C01); here every case is parsed with a Rust parser and lexed independently"
+    return finish(R, "model_checking",
+                  "payload cases: 10 payload classes (plain, quote, backslash, braces, LF, CR, comment terminator, comment opener, injection, non-ASCII) x 13 source positions (element/attribute/type/operation/part/service name, enumeration value, facet value, documentation of a simple and a complex type, namespace URI, address, soapAction); keyword cases: 57 keywords (strict, reserved, weak; edition 2024) x 6 naming positions; each is one TLC state (AllSafe on spec/Emit.tla), generated by the real code, the output parsed and lexed, and every occurrence of the marker classified; TLC judges",
+                  ["concretiser (XML escaping of the payload)", "independent lexer of the harness (harness/src/lexer.rs) and syn", "TLC"])
+
+
+CHECKS = {"C14": check_C14, "C17": check_C17, "C13": check_C13, "C12": check_C12, "C09": check_C09, "C10": check_C10, "C08": check_C08, "C11": check_C11, "C06": check_C06, "C15": check_C15, "C02": check_C02}
 
 
 def main(argv):
